@@ -139,3 +139,41 @@ func vhProfileAttrsConvert() {
 		vAssert(got.Attributes[k].Attribute == attrs[k].Attribute && got.Attributes[k].Optional == attrs[k].Optional, "an entry of the profile's attribute list changed in the conversion")
 	}
 }
+
+// vhProfileNullEntry: C08, "never silently dropped", for the entry the example
+// profile warns about: a list item with a key but no value (`- keyUsage:`
+// instead of `- keyUsage: {}`), which reaches initProfile as an AnyExtension
+// without any kind set but with its optional/override flags. Such an entry at
+// any position of a three-entry list, all flags drawn: the profile is either
+// refused as a whole, or every entry is still there with the flags it was
+// written with (an entry lost on the way would shift the flags of every entry
+// after it, and a mandatory content-less extension would vanish).
+func vhProfileNullEntry() {
+	vClockFixed(1709640000)
+	pos := vChoose("nullAt", 3)
+	var list []AnyExtension
+	var opt, ovr []bool
+	kinds := []int{1, 7, 3}
+	for i := 0; i < 3; i++ {
+		o, v := vChoose(vName("optional", i), 2) == 1, vChoose(vName("override", i), 2) == 1
+		var e AnyExtension
+		if i != pos {
+			e = vRawExt(kinds[i], nullPrefix, false)
+		}
+		e.Optional, e.Override = o, v
+		list = append(list, e)
+		opt, ovr = append(opt, o), append(ovr, v)
+	}
+	profp, err := initProfile(Profile{ProfileName: "p", Version: 1, Extensions: list})
+	vReach("converted")
+	if err != nil || profp == nil {
+		return // refused as a whole: nothing is generated from it
+	}
+	vAssert(len(profp.Extensions) == 3, "a profile entry without value was silently dropped from the profile")
+	if len(profp.Extensions) != 3 {
+		return
+	}
+	for i := 0; i < 3; i++ {
+		vAssert(profp.Extensions[i].Optional == opt[i] && profp.Extensions[i].Override == ovr[i], "the optional/override flags of a profile extension are not the ones it was written with")
+	}
+}
